@@ -493,6 +493,13 @@ class History:
                     a = self.h.call({"op": "query", "msg": q})
                     if ("ok" in a) != (q["batch"]["id"] in byid) or ("ok" in a and a["ok"] != byid[q["batch"]["id"]]):
                         finding("batch_by_id", {}, "Batch %s disagrees with the Batches listing" % q["batch"]["id"])
+        if "ok" in fullb:
+            for st_ in ("Pending", "Submitted", "Received"):
+                fa = self.h.call({"op": "query", "msg": {"batches": {"start_after": None, "limit": None, "status": st_}}})
+                want = [x for x in fullb["ok"]["batches"] if x["status"] == st_.lower()]
+                if "ok" in fa and fa["ok"]["batches"] != want:
+                    finding("status_filter", {"status": st_}, "Batches{status: %s} returns ids %s; the complete listing has %s with that status" % (
+                        st_, [x["id"] for x in fa["ok"]["batches"]], [x["id"] for x in want]))
         allr = self.h.call({"op": "query", "msg": {"all_unstake_requests": {"start_after": None, "limit": None}}})
         if "ok" in allr:
             for u in self._users():
